@@ -305,6 +305,10 @@ class Sub:
             for combo in itertools.product(*[v for _, v in choices]):
                 env = {nm: val for (nm, _), val in zip(choices, combo)}
                 out.append(_Rebuild(env).visit(expr))
+        split: List[ast.expr] = []
+        for o in out:
+            split.extend(split_ifexp(o))
+        out = split
         self._memo[key] = out
         return out
 
@@ -377,6 +381,53 @@ class Sub:
 
     def alts_at_node(self, e: ast.expr, at: int) -> List[ast.expr]:
         return self.alts(e, at)
+
+
+def split_ifexp(e: ast.expr, cap: int = 16) -> List[ast.expr]:
+    """`a if c else b` anywhere in `e` (outside lambdas / comprehensions) -> one expression per arm"""
+    todo, done = [e], []
+    while todo:
+        cur = todo.pop()
+        hit = None
+        stack = [cur]
+        while stack and hit is None:
+            n = stack.pop()
+            if isinstance(n, ast.IfExp):
+                hit = n
+                break
+            if isinstance(n, (ast.Lambda, ast.ListComp, ast.SetComp, ast.GeneratorExp, ast.DictComp)):
+                continue
+            stack.extend(ast.iter_child_nodes(n))
+        if hit is None or len(done) + len(todo) >= cap:
+            done.append(cur)
+            continue
+        for arm in (hit.body, hit.orelse):
+            a2 = copy.copy(arm)
+            a2._orig = orig(arm)
+            a2._from = orig(hit)
+            todo.append(_Replace(hit, a2).visit(cur))
+    done.reverse()
+    return done
+
+
+class _Replace(ast.NodeTransformer):
+    def __init__(self, old, new):
+        self.old, self.new = old, new
+
+    def visit(self, node):
+        if node is self.old:
+            return self.new
+        if not any(x is self.old for x in ast.walk(node)):
+            return node
+        new = type(node).__new__(type(node))
+        new.__dict__.update(node.__dict__)
+        new._orig = orig(node)
+        for fld, old in ast.iter_fields(node):
+            if isinstance(old, list):
+                setattr(new, fld, [self.visit(x) if isinstance(x, ast.AST) else x for x in old])
+            elif isinstance(old, ast.AST):
+                setattr(new, fld, self.visit(old))
+        return new
 
 
 def _conj(t: ast.expr, pol: bool) -> List[Tuple[ast.expr, bool]]:
